@@ -11,6 +11,8 @@ mod c03;
 mod c05;
 mod c06;
 mod c07;
+mod c10;
+mod c11;
 mod c12;
 mod c15;
 mod c20;
@@ -24,7 +26,7 @@ pub struct Family {
 }
 
 fn families() -> Vec<Family> {
-    vec![c20::family(), c15::family(), c07::family(), c05::family(), c06::family(), c12::family(), c03::family()]
+    vec![c20::family(), c15::family(), c07::family(), c05::family(), c06::family(), c10::family(), c11::family(), c12::family(), c03::family()]
 }
 
 pub fn hex(b: &[u8]) -> String {
